@@ -102,14 +102,15 @@ Theorem C08_responses_partial_run : forall e ls, lines_ok e core_init ls ->
 Proof. intros e ls H. exact (lrun_refines e ls core_init (Inv_init e) H). Qed.
 Print Assumptions C08_responses_partial_run.
 
-(* ... and refuted for the two excluded classes (findings F08b and F08a) *)
+(* ... and refuted for the dangling-digit class (finding F08b) *)
 Theorem C08_responses_refuted_odd_hex : ~ C08_responses_full_statement.
 Proof. exact responses_refuted_odd_hex. Qed.
 Print Assumptions C08_responses_refuted_odd_hex.
 
-Theorem C08_responses_refuted_abort : ~ C08_responses_full_statement.
-Proof. exact responses_refuted_abort. Qed.
-Print Assumptions C08_responses_refuted_abort.
+(* the assertion in _dbus_string_skip_blank (finding F08a, fixed by 94435c1) can no longer fail *)
+Theorem C08_skip_blank_never_aborts : forall asserts s start, skip_blank asserts s start <> None.
+Proof. exact skip_blank_total. Qed.
+Print Assumptions C08_skip_blank_never_aborts.
 
 (* ---------- non-vacuity ---------- *)
 Definition ex_env : env :=
